@@ -189,6 +189,15 @@ def run(tier):
                     rep.check(0x04 in seen and 0x09 in seen and 0x0D in seen, 'R04.c', 'gate|wifi-present',
                               'the port reports a Wi-Fi mode but the Hello lacks wireless properties (has %s)' % sorted('0x%02x' % x for x in has), function='answerHello',
                               file='lltdResponder/lltdBlock.c')
+                    # the BSSID the port supplies is carried whatever its value: absent only when the getter failed
+                    rcb = st.dom(rc_atom('bssid'))
+                    if rcb.const() == 0:
+                        rep.check(0x05 in seen, 'R04.c', 'gate|bssid-present',
+                                  'the port supplied a BSSID (getter succeeded) but the Hello carries no BSSID property: some value of the address makes the writer drop it',
+                                  function='setBSSIDTLV', file='lltdResponder/lltdTlvOps.c')
+                    elif rcb.contains(0) and 0x05 not in seen:
+                        rep.fail('R04.c', 'gate|bssid-unchecked', 'a wireless Hello without BSSID property on a path that did not establish that the BSSID getter failed',
+                                 function='setBSSIDTLV', file='lltdResponder/lltdTlvOps.c')
                 elif not rcw.contains(0):
                     rep.check(not has, 'R04.c', 'gate|wired-absent', 'the port reports no Wi-Fi mode but the Hello carries wireless properties %s' % sorted('0x%02x' % x for x in has),
                               function='answerHello', file='lltdResponder/lltdBlock.c')
